@@ -90,7 +90,8 @@ def _fn_sir2():
 
     text, done, failed = translate.translate_module(
         pm.__file__, pm, wanted=["_get_or_generate_sensitive_word_replacement", "_anonymize_value", "_extract_enclosing_text", "_check_sensitive_item_format",
-                                 "replace_matching_item", "_split_line", "anonymize_as_numbers", ("AsNumberAnonymizer", "anonymize"), ("AsNumberAnonymizer", "get_as_number_pattern")],
+                                 "replace_matching_item", "_split_line", "anonymize_as_numbers", ("AsNumberAnonymizer", "anonymize"), ("AsNumberAnonymizer", "get_as_number_pattern"),
+                                 ("SensitiveWordAnonymizer", "anonymize"), "_lookup_anon_word"],
         oracles=("cisco_type7", "md5_crypt", "sha512_crypt"), xmods={"juniper_secrets": (js, "G_fn_jun")},
         external=("_extract_enclosing_text", "_check_sensitive_item_format"), requires=("G_fn_sir",),
         method_oracles=("search", "sub", "group", "groupdict"),      # methods of compiled patterns / match objects: answered by the py_call parameter
